@@ -63,12 +63,12 @@ def well_conditioned(rng, m, n, cond=10.0, scale=1.0):
     """m <= n, full row rank, singular values log-uniform in [1/cond, 1] * scale."""
     assert m <= n
     u, _ = np.linalg.qr(rng.standard_normal((m, m)))
-    v, _ = np.linalg.qr(rng.standard_normal((n, n)))
+    vt, _ = np.linalg.qr(rng.standard_normal((n, m)))  # reduced QR: n x m with orthonormal columns (n may be 50 000)
     s = 10 ** rng.uniform(-np.log10(cond), 0, size=m)
     s[0], s[-1] = 1.0, 1.0 / cond
     if m == 1:
         s[0] = 1.0
-    return (u * s) @ v[:m] * scale
+    return (u * s) @ vt.T * scale
 
 
 def haar_orthogonal(rng, n):
